@@ -304,7 +304,7 @@ int main(int argc, char **argv)
                 accumulate(agg, o);
                 bool nontrivial = (o.res.mon.lines_ok + o.res.mon.lines_error + o.res.mon.events_finished) > 0;
                 if (hf) {
-                        uint64_t rec[2] = {o.res.hash, (uint64_t)nontrivial};
+                        uint64_t rec[3] = {idx, o.res.hash, (uint64_t)nontrivial};
                         fwrite(rec, sizeof rec, 1, hf);
                 }
                 if (determinism) {
